@@ -4,6 +4,7 @@ import GlyProofs.Mono.NumberingP
 import GlyProofs.Mono.NumberingF
 import GlyProofs.Mono.LinkAtom
 import GlyProofs.Front.WalkDen
+import GlyProofs.Poly.PlanRefines
 /-
   C01 — Glycosidic assembly yields exactly the molecule the linkages describe. (Property theorems only.)
 -/
@@ -136,6 +137,59 @@ theorem C01_linking_atom_through_substituent (v : View) (fuel : Nat) (q seen : L
     let r := checkRootGo v fuel q seen none root
     r = root ∨ ((v.at r).z = 8 ∧ degSum v r = 1) ∨ ((v.at r).z = 7 ∧ degSum v r ≤ 2) :=
   checkRootGo_spec v fuel q seen none root (by intro c hc; cases hc)
+
+open Gly.Plan in
+/-- **Which linkage marks what** (Model of `Merger.mark` / `Merger.merge_int`, tied to merger.py by the sequence of calls observed
+    inside real conversions): for every written glycan without floating fragments whose residues have at most four children
+    (four marker pairs; `m ≤ slots`, `m ≤ limit`), the recursion of the code over the edge list of the walked tree issues, for
+    every traversal instance `T`, exactly the calls of the Spec `specWhole` – linkage by linkage of the written forest
+    `den br nil` in pre-order: the action on the linkage (`T.edge parent child label slot`, slot = the child's position among
+    its siblings), then the action on entering the child (`T.pre child label`). Any depth, any width up to `m`, any labels. -/
+theorem C01_linkage_plan {α : Type} (T : Trav α) (w : WalkCfg) (s : Start) (br : Branch) (hf : s.floats = [])
+    (hb : s.begin.branch = some br) (m : Nat) (hs : m ≤ T.slots) (hl : ∀ l, T.limit = some l → m ≤ l)
+    (hw0 : (den br .nil).width ≤ m) (hw : (den br .nil).widthOK m = true)
+    (f : Nat) (hfu : (den br .nil).size < f) (pe : List Char) (a : α) :
+    go T (walkStart w s).edges f 0 pe a = specWhole T w (den br .nil) pe a := by
+  rw [walkStart_eq_denStart]
+  simp only [denStart, hf, List.foldl_nil, hb]
+  exact go_refines T w (den br .nil) _ (by simp [addNode, WState.init]) (by simp [addNode, WState.init]) m hs hl hw0 hw f hfu pe a
+
+open Gly.Plan in
+/-- … read for `Merger.mark` (instance `markTrav`): one written linkage `(p, c, "(xA-B)", k)` = the call `mark(B, marker pair k)`
+    on residue `p` – the carbon named *second* in the label, a marker pair no sibling shares – followed, when the child has no
+    anomer of its own, by `to_chirality(x)` on the child with the anomer letter of *its own* label. -/
+theorem C01_mark_per_linkage (undef : Nat → Bool) (ns : Nat) (p c : Nat) (lab : List Char) (k : Nat) :
+    perLinkage (markTrav undef ns) (p, c, lab, k, ()) =
+      (numAt lab 1).map (fun b => [Call.mark p b k] ++ (if undef c then [Call.chir c (lab.getD 1 ' ').toLower] else [])) := by
+  simp only [perLinkage, markTrav]
+  cases numAt lab 1 <;> simp
+
+open Gly.Plan in
+/-- … and for `Merger.merge_int` (instance `mergeTrav`): the child's SMILES is written from the carbon named *first* in the label,
+    with the ring-label offset its parent inherited plus `max(1, rings of the parent)`. -/
+theorem C01_root_per_linkage (rings : Nat → Nat) (ns : Nat) (p c : Nat) (lab : List Char) (k ri : Nat) :
+    perLinkage (mergeTrav rings ns) (p, c, lab, k, ri) =
+      (numAt lab 0).map (fun a => [Call.root c a, Call.smiles c (ri + max 1 (rings p))]) := by
+  simp only [perLinkage, mergeTrav]
+  cases numAt lab 0 <;> simp
+
+open Gly.Plan in
+/-- `(a1-4)`: mark carbon 4 of the parent, root the child at carbon 1, anomer `a`; `Neu5Ac(a2-3)`: carbon 3 / carbon 2;
+    two-digit positions are one number; a label with `?` for the parent position has no second number (the code raises). -/
+theorem C01_label_examples :
+    numAt "(a1-4)".toList 0 = some 1 ∧ numAt "(a1-4)".toList 1 = some 4 ∧
+    numAt "(a2-3)".toList 0 = some 2 ∧ numAt "(a2-3)".toList 1 = some 3 ∧
+    numAt "(b1-12)".toList 1 = some 12 ∧ numAt "(a1-?)".toList 1 = none ∧ "(a1-4)".toList.getD 1 ' ' = 'a' := by
+  decide
+
+open Gly.Plan in
+/-- Non-vacuity: the plan of `Man(a1-3)[Man(a1-6)]Man(b1-4)GlcNAc` shaped forest (root, one child with two children). -/
+example :
+    let F : GF := .cons "(b1-4)".toList [] (.cons "(a1-3)".toList [] .nil (.cons "(a1-6)".toList [] .nil .nil)) .nil
+    let w : WalkCfg := ⟨0, fun _ => true, fun _ => false⟩
+    specWhole (markTrav (fun _ => true) 4) w F (rootLabel ['n']) () =
+      some [.chir 0 'n', .mark 0 4 0, .chir 1 'b', .mark 1 3 0, .chir 2 'a', .mark 1 6 1, .chir 3 'a'] := by
+  decide +kernel
 
 /-- The tree the assembly consumes is the written one (C03). -/
 theorem C01_tree_is_written (w : WalkCfg) (s : Start) : walkStart w s = denStart w s := walkStart_eq_denStart w s
